@@ -2,7 +2,7 @@
 
 Explicit-state search over *histories of compilations* on the real process-wide compiler state.
 
-* Alphabet: the 32 designs of verif/gen/c11_designs.py (accepted ones and rejected ones, one per failure stage).
+* Alphabet: the 34 designs of verif/gen/c11_designs.py (accepted ones and rejected ones, one per failure stage).
 * Golden outcome of a letter = its compilation in a fresh interpreter (PYTHONHASHSEED=0) with an empty history.
 * History tree: every history up to a complete length is executed in one interpreter; the tree is explored
   depth-first with os.fork() as the state snapshot (verif/gen/c11_tree.py, a stand-alone script started in fresh
@@ -206,7 +206,7 @@ CORE6 = ["coro", "syncflag", "prefix", "rej_lowering", "rej_seqctx", "rej_prefix
 CORE8 = CORE6 + ["env3", "env5"]
 
 
-VICTIMS10 = ["comb", "coro", "syncflag", "prefix", "glob3", "glob5", "env3", "env5", "dyn_a", "dyn_b"]
+VICTIMS10 = ["comb", "coro", "syncflag", "prefix", "glob5", "env5", "dyn_b", "types_asc", "types_desc"]
 
 
 def tree_strata(run, order, golden):
